@@ -4,7 +4,7 @@ C09 -- Inlining, specialisation and hoisting preserve results.
 Space (bounded-exhaustive, see mc/engine/progen_c09.py): every caller/callee
 pair and every 3-chain of the declared grammar x every transformation pipeline
 of length 1 (inline at every index / expression cursor / statement cursor /
-None, with and without `funcs`, recursive on/off; monomorphize on every pool
+enclosing top-level statement / whole-body region / None, with and without `funcs`, recursive on/off; monomorphize on every pool
 context and on argument types; close; lift_context) and every ordered pair of
 a 7-element base set (length 2) x every input of the pool x every caller
 context of the pool.
@@ -37,7 +37,7 @@ from fpy2.analysis.call_graph import CallGraphError
 from fpy2.function import Function
 from fpy2.interpret import get_default_interpreter
 from fpy2.number import Float
-from fpy2.transform import TransformError
+from fpy2.transform import BlockCursor, FuncBody, StmtCursor, SubBlock, TransformError
 from fpy2.types import ListType, RealType
 
 from ..engine import progen_c09 as pg
@@ -126,6 +126,9 @@ def single_pipelines(nsites: int, is_chain: bool, mono_ctxs: list[str]) -> list[
     for k in range(nsites):
         out.append([inl(['expr', k], True)])
         out.append([inl(['stmt', k], True)])
+        out.append([inl(['top', k], True)])
+    if nsites:
+        out.append([inl(['body', 0], False)])
     out.append([inl(None, True, ['g'])])
     if is_chain:
         out.append([inl(None, True, ['h'])])
@@ -187,7 +190,17 @@ def apply_step(step, cur: Function, orig: Function, mod) -> Function:
             sites = st.sites(st.inline, base, funcs=funcs)
             if not 0 <= w[1] < len(sites):
                 raise NotApplicable()
-            where = sites[w[1]].stmt() if w[0] == 'stmt' else sites[w[1]]
+            if w[0] == 'stmt':          # the statement holding the call
+                where = sites[w[1]].stmt()
+            elif w[0] == 'top':         # the outermost statement enclosing it (takes everything beneath)
+                sp = sites[w[1]].stmt().path
+                while isinstance(sp.parent, SubBlock):
+                    sp = sp.parent.parent
+                where = StmtCursor(base.ast, sp)
+            elif w[0] == 'body':        # the whole function body as a region
+                where = BlockCursor(base.ast, FuncBody(), range(0, len(base.ast.body.stmts)))
+            else:
+                where = sites[w[1]]
         return st.inline(cur, where, funcs=funcs, recursive=step['rec'])
     if op == 'mono':
         ctx = None if step['ctx'] is None else eval(step['ctx'], _EVAL_ENV)
